@@ -613,7 +613,7 @@ func C06(tier string) int {
 	run.Coverage = map[string]any{
 		"evaluations":         execs,
 		"distinct_nontrivial": len(outcomes),
-		"rule":                fmt.Sprintf("for every request shape (kind x addressing x lock state x planted record x malformed length x closed store) every execution with at most %d departures from the default environment answer, where each call of fetcher, checker, unlocker, rules.On*, Store.Fetch/Store/BatchStore (error, or store closed between read and write) and Account.Sign is a choice point; driven through the real gRPC signer handlers; distinct = distinct (kind, wire state vector) outcomes", bound),
+		"rule":                fmt.Sprintf("for every request shape (kind x addressing x lock state x planted record (none, valid, refusing first position, or undecodable: wrong length, garbage, no bytes, version byte only, version-1 record one byte short or long) x malformed length x closed store) every execution with at most %d departures from the default environment answer, where each call of fetcher, checker, unlocker, rules.On*, Store.Fetch/Store/BatchStore (error, or store closed between read and write) and Account.Sign is a choice point; driven through the real gRPC signer handlers; distinct = distinct (kind, wire state vector) outcomes", bound),
 		"samples":             samples.List(),
 		"exhaustive":          true,
 		"deviation_bound":     bound,
